@@ -36,10 +36,17 @@ func init() {
 			x.Assert("metrics:metricKey-empty-guard", ks.emptyGuard, "expected first statement `if len(tags) == 0 { return name }`")
 			x.Assert("metrics:metricKey-concat", ks.concatOK, "expected exactly one loop whose body is `key += <lit> + k + <lit> + <tags[k] | v>` and a final `return key` with `key := name` before the loop; %s", ks.why)
 			x.Assert("metrics:metricKey-loop-source", ks.sourceOK, "the concatenating loop must range either over the tag map itself or over a slice of its keys; %s", ks.why)
-			if ks.concatOK {
+			ascii := true
+			for _, b := range []byte(ks.tagSep + ks.kvSep) {
+				if b >= 0x80 {
+					ascii = false
+				}
+			}
+			x.Assert("metrics:metricKey-separators-ascii", ascii, "separator literals must be ASCII (the model converts them bytewise)")
+			if ks.concatOK && ascii {
 				tagSep, kvSep = ks.tagSep, ks.kvSep
 			}
-			sorts = ks.paramsOK && ks.concatOK && ks.sourceOK && ks.sorted
+			sorts = ks.paramsOK && ks.concatOK && ks.sourceOK && ks.sorted && ascii
 			x.Fact("metrics.metricKey", map[string]interface{}{"rangesOverMap": ks.rangesOverMap, "sortedKeySlice": ks.sorted, "why": ks.why})
 		}
 		fmt.Fprintf(&sb, "/-- `Collector.metricKey` walks the tag names in sorted order (a key slice passed through\n    sort.Strings before the concatenating loop) and not in map-iteration order -/\ndef keyLoopSortsTags : Bool := %v\n\n", sorts)
@@ -280,13 +287,15 @@ func methodOf(x *X, rel, recv, name string) *ast.FuncDecl {
 	return nil
 }
 
-func collectorMethod(x *X, rel, name string) *ast.FuncDecl { return methodOf(x, rel, "Collector", name) }
+func collectorMethod(x *X, rel, name string) *ast.FuncDecl {
+	return methodOf(x, rel, "Collector", name)
+}
 
 type keyShape struct {
 	paramsOK, emptyGuard, concatOK, sourceOK bool
-	rangesOverMap, sorted                     bool
-	tagSep, kvSep                             string
-	why                                       string
+	rangesOverMap, sorted                    bool
+	tagSep, kvSep                            string
+	why                                      string
 }
 
 // analyseMetricKey recognises the two shapes the model distinguishes (see the header comment).
